@@ -234,7 +234,7 @@ func init() {
 		var cases []Case
 		for mask := 0; mask < 16; mask++ {
 			for _, v := range e8Variants {
-				for rep := 0; rep < tierPick(tier, 1, 4); rep++ {
+				for rep := 0; rep < tierPick(tier, 1, 16); rep++ {
 					cases = append(cases, e8Case(mask, v, tier == "thorough", seed+uint64(rep)*7919))
 				}
 			}
